@@ -1,1 +1,404 @@
-//! Workload generators shared between checks.
+//! Workload generators shared between checks: an independent sfnt directory
+//! parser, structure-aware byte mutation (boundary-directed), truncation
+//! sweeps, table-directory edits, splicing, and a font re-assembler.
+
+use crate::core::Rng;
+
+/// One table record of an sfnt directory (independent of read-fonts).
+#[derive(Clone, Debug, PartialEq, Eq)]
+pub struct TableRec {
+    pub tag: [u8; 4],
+    pub checksum: u32,
+    pub offset: u32,
+    pub len: u32,
+    /// byte position of this record inside the file
+    pub rec_pos: usize,
+}
+
+impl TableRec {
+    pub fn tag_str(&self) -> String {
+        self.tag.iter().map(|b| if b.is_ascii_graphic() || *b == b' ' { *b as char } else { '?' }).collect()
+    }
+    /// clamp the table range to the file
+    pub fn range(&self, file_len: usize) -> std::ops::Range<usize> {
+        let s = (self.offset as usize).min(file_len);
+        let e = s.saturating_add(self.len as usize).min(file_len);
+        s..e
+    }
+}
+
+pub fn be16(b: &[u8], p: usize) -> Option<u16> {
+    Some(u16::from_be_bytes(b.get(p..p + 2)?.try_into().ok()?))
+}
+pub fn be32(b: &[u8], p: usize) -> Option<u32> {
+    Some(u32::from_be_bytes(b.get(p..p + 4)?.try_into().ok()?))
+}
+
+/// Parse the table directory of a single-font sfnt (or of font `index` of a
+/// TTC). Lenient: returns whatever records fit in the file.
+pub fn parse_dir(bytes: &[u8], index: u32) -> Vec<TableRec> {
+    let mut base = 0usize;
+    if bytes.get(0..4) == Some(b"ttcf") {
+        let n = be32(bytes, 8).unwrap_or(0);
+        if index >= n {
+            return vec![];
+        }
+        base = match be32(bytes, 12 + 4 * index as usize) {
+            Some(o) => o as usize,
+            None => return vec![],
+        };
+    }
+    let Some(n) = be16(bytes, base + 4) else { return vec![] };
+    let mut v = vec![];
+    for i in 0..n as usize {
+        let p = base + 12 + 16 * i;
+        let (Some(t), Some(c), Some(o), Some(l)) = (bytes.get(p..p + 4), be32(bytes, p + 4), be32(bytes, p + 8), be32(bytes, p + 12)) else {
+            break;
+        };
+        v.push(TableRec { tag: t.try_into().unwrap(), checksum: c, offset: o, len: l, rec_pos: p });
+    }
+    v
+}
+
+/// Assemble a minimal, well-formed sfnt from (tag, bytes) pairs (independent of
+/// write-fonts; checksums are left zero — read-fonts does not verify them).
+pub fn build_sfnt(version: u32, tables: &[([u8; 4], Vec<u8>)]) -> Vec<u8> {
+    let mut tables: Vec<_> = tables.to_vec();
+    tables.sort_by(|a, b| a.0.cmp(&b.0));
+    let n = tables.len() as u16;
+    let mut out = vec![];
+    out.extend_from_slice(&version.to_be_bytes());
+    out.extend_from_slice(&n.to_be_bytes());
+    let es = if n == 0 { 0 } else { 15 - n.leading_zeros() as u16 };
+    let sr = if n == 0 { 0 } else { (1u16 << es).wrapping_mul(16) };
+    out.extend_from_slice(&sr.to_be_bytes());
+    out.extend_from_slice(&es.to_be_bytes());
+    out.extend_from_slice(&(n.wrapping_mul(16).wrapping_sub(sr)).to_be_bytes());
+    let mut off = 12 + 16 * tables.len();
+    let mut body = vec![];
+    for (tag, data) in &tables {
+        out.extend_from_slice(tag);
+        out.extend_from_slice(&0u32.to_be_bytes());
+        out.extend_from_slice(&(off as u32).to_be_bytes());
+        out.extend_from_slice(&(data.len() as u32).to_be_bytes());
+        body.extend_from_slice(data);
+        while body.len() % 4 != 0 {
+            body.push(0);
+        }
+        off = 12 + 16 * tables.len() + body.len();
+    }
+    out.extend_from_slice(&body);
+    out
+}
+
+/// Split a font into its tables.
+pub fn split_tables(bytes: &[u8]) -> Vec<([u8; 4], Vec<u8>)> {
+    parse_dir(bytes, 0)
+        .iter()
+        .map(|r| (r.tag, bytes[r.range(bytes.len())].to_vec()))
+        .collect()
+}
+
+/// Replace (or add) one table of a font, re-assembling the container.
+pub fn with_table(bytes: &[u8], tag: &[u8; 4], data: &[u8]) -> Vec<u8> {
+    let mut t = split_tables(bytes);
+    if let Some(e) = t.iter_mut().find(|e| &e.0 == tag) {
+        e.1 = data.to_vec();
+    } else {
+        t.push((*tag, data.to_vec()));
+    }
+    build_sfnt(be32(bytes, 0).unwrap_or(0x00010000), &t)
+}
+
+/// Remove one table.
+pub fn without_table(bytes: &[u8], tag: &[u8; 4]) -> Vec<u8> {
+    let t: Vec<_> = split_tables(bytes).into_iter().filter(|e| &e.0 != tag).collect();
+    build_sfnt(be32(bytes, 0).unwrap_or(0x00010000), &t)
+}
+
+// ---------------------------------------------------------------- edits
+
+/// A reversible in-place edit.
+#[derive(Clone, Debug)]
+pub struct Edit {
+    pub pos: usize,
+    pub old: Vec<u8>,
+    pub new: Vec<u8>,
+}
+
+/// Applies edits in place and restores them on `undo` (avoids copying large
+/// fonts per mutant).
+#[derive(Default)]
+pub struct Patcher {
+    log: Vec<Edit>,
+}
+
+impl Patcher {
+    pub fn new() -> Self {
+        Self::default()
+    }
+    pub fn set(&mut self, buf: &mut [u8], pos: usize, new: &[u8]) {
+        if pos >= buf.len() {
+            return;
+        }
+        let end = (pos + new.len()).min(buf.len());
+        let old = buf[pos..end].to_vec();
+        buf[pos..end].copy_from_slice(&new[..end - pos]);
+        self.log.push(Edit { pos, old, new: new[..end - pos].to_vec() });
+    }
+    pub fn set16(&mut self, buf: &mut [u8], pos: usize, v: u16) {
+        self.set(buf, pos, &v.to_be_bytes());
+    }
+    pub fn set32(&mut self, buf: &mut [u8], pos: usize, v: u32) {
+        self.set(buf, pos, &v.to_be_bytes());
+    }
+    pub fn describe(&self) -> String {
+        let mut s = String::new();
+        for e in self.log.iter().take(12) {
+            s.push_str(&format!("@{}:{}->{};", e.pos, crate::core::hex(&e.old), crate::core::hex(&e.new)));
+        }
+        if self.log.len() > 12 {
+            s.push_str(&format!("(+{} more)", self.log.len() - 12));
+        }
+        s
+    }
+    pub fn edits(&self) -> &[Edit] {
+        &self.log
+    }
+    pub fn undo(&mut self, buf: &mut [u8]) {
+        while let Some(e) = self.log.pop() {
+            buf[e.pos..e.pos + e.old.len()].copy_from_slice(&e.old);
+        }
+    }
+}
+
+/// 16-bit values that sit on validation boundaries.
+pub const INTERESTING16: [u16; 14] = [0, 1, 2, 3, 0x7F, 0x80, 0xFF, 0x100, 0x7FFF, 0x8000, 0x8001, 0xFFFD, 0xFFFE, 0xFFFF];
+/// 32-bit values that sit on validation boundaries.
+pub const INTERESTING32: [u32; 12] = [0, 1, 2, 0xFFFF, 0x10000, 0x10001, 0x7FFFFFFF, 0x80000000, 0x80000001, 0xFFFFFFFE, 0xFFFFFFFF, 0x00FFFFFF];
+
+/// Values derived from the context: region length ±1, current value ±1,
+/// doubled/halved, file length.
+pub fn contextual16(cur: u16, region_len: usize, rel_pos: usize) -> Vec<u16> {
+    let l = region_len as u32;
+    let mut v = vec![
+        cur.wrapping_add(1),
+        cur.wrapping_sub(1),
+        cur.wrapping_mul(2),
+        cur / 2,
+        (l & 0xFFFF) as u16,
+        (l.wrapping_sub(1) & 0xFFFF) as u16,
+        (l.wrapping_add(1) & 0xFFFF) as u16,
+        ((l / 2) & 0xFFFF) as u16,
+        (l.saturating_sub(rel_pos as u32) & 0xFFFF) as u16,
+        (rel_pos as u32 & 0xFFFF) as u16,
+        cur ^ 0x8000,
+        cur.swap_bytes(),
+    ];
+    v.sort_unstable();
+    v.dedup();
+    v
+}
+
+/// The kinds of random whole-file mutation `mutate_random` applies.
+pub const MUTATION_KINDS: [&str; 10] = [
+    "bitflip", "byte", "interesting16", "interesting32", "contextual16", "dir-offset", "dir-length", "copy-block", "zero-block", "ff-block",
+];
+
+/// Apply 1..=4 random structure-aware edits inside table payloads (or the
+/// directory) of `buf`, recording them in `patcher`. Returns the kinds used.
+pub fn mutate_random(buf: &mut [u8], dir: &[TableRec], rng: &mut Rng, patcher: &mut Patcher, focus: Option<&[u8; 4]>) -> Vec<&'static str> {
+    let mut kinds = vec![];
+    if buf.is_empty() {
+        return kinds;
+    }
+    let n = 1 + rng.usize(4);
+    for _ in 0..n {
+        // choose a region: a table (biased to `focus` and to the first 512 bytes), or the header
+        let file_len = buf.len();
+        let (rs, re) = if let (Some(f), true) = (focus, rng.chance(3, 4)) {
+            match dir.iter().find(|r| &r.tag == f) {
+                Some(r) => {
+                    let x = r.range(file_len);
+                    (x.start, x.end)
+                }
+                None => (0, file_len),
+            }
+        } else if !dir.is_empty() && rng.chance(9, 10) {
+            let r = rng.pick(dir);
+            let x = r.range(file_len);
+            (x.start, x.end)
+        } else {
+            (0, (12 + 16 * dir.len()).min(file_len))
+        };
+        if re <= rs {
+            continue;
+        }
+        let len = re - rs;
+        let pos_in = if rng.chance(2, 3) { rng.usize(len.min(512)) } else { rng.usize(len) };
+        let pos = rs + pos_in;
+        let kind = *rng.pick(&MUTATION_KINDS);
+        match kind {
+            "bitflip" => {
+                let b = buf[pos] ^ (1 << rng.usize(8));
+                patcher.set(buf, pos, &[b]);
+            }
+            "byte" => {
+                let b = *rng.pick(&[0u8, 1, 0x7f, 0x80, 0xff, rng.u32() as u8]);
+                patcher.set(buf, pos, &[b]);
+            }
+            "interesting16" => {
+                let p = pos & !1;
+                patcher.set16(buf, p, *rng.pick(&INTERESTING16));
+            }
+            "interesting32" => {
+                let p = pos & !1;
+                patcher.set32(buf, p, *rng.pick(&INTERESTING32));
+            }
+            "contextual16" => {
+                let p = pos & !1;
+                let cur = be16(buf, p).unwrap_or(0);
+                let c = contextual16(cur, len, p - rs);
+                patcher.set16(buf, p, *rng.pick(&c));
+            }
+            "dir-offset" | "dir-length" => {
+                if dir.is_empty() {
+                    continue;
+                }
+                let r = rng.pick(dir);
+                let field = if kind == "dir-offset" { r.rec_pos + 8 } else { r.rec_pos + 12 };
+                let cur = be32(buf, field).unwrap_or(0);
+                let fl = file_len as u32;
+                let v = *rng.pick(&[
+                    0,
+                    1,
+                    cur.wrapping_add(1),
+                    cur.wrapping_sub(1),
+                    cur.wrapping_add(2),
+                    cur / 2,
+                    fl,
+                    fl.wrapping_sub(1),
+                    fl.wrapping_sub(cur),
+                    fl.wrapping_add(1),
+                    0xFFFFFFFF,
+                    0x80000000,
+                    0xFFFFFFFFu32.wrapping_sub(cur).wrapping_add(1),
+                    dir[rng.usize(dir.len())].offset,
+                ]);
+                patcher.set32(buf, field, v);
+            }
+            "copy-block" => {
+                let n = (1 + rng.usize(32)).min(len);
+                let src = rs + rng.usize(len - n + 1);
+                let block = buf[src..src + n].to_vec();
+                patcher.set(buf, pos, &block);
+            }
+            "zero-block" => {
+                let n = 1 + rng.usize(16);
+                patcher.set(buf, pos, &vec![0u8; n]);
+            }
+            _ => {
+                let n = 1 + rng.usize(16);
+                patcher.set(buf, pos, &vec![0xffu8; n]);
+            }
+        }
+        kinds.push(kind);
+    }
+    kinds
+}
+
+/// Deterministic boundary sweep over one region: for every 2-byte aligned
+/// position in the first `window` bytes, every interesting/contextual 16-bit
+/// value; and at 4-byte steps every interesting 32-bit value. Calls `f` with
+/// the patched buffer and a description; restores the buffer afterwards.
+/// `select(i)` filters the enumeration index (sharding / sampling).
+pub fn sweep_region(
+    buf: &mut [u8],
+    start: usize,
+    end: usize,
+    window: usize,
+    select: &mut dyn FnMut(usize) -> bool,
+    f: &mut dyn FnMut(&[u8], &str),
+) -> usize {
+    let end = end.min(buf.len());
+    if start >= end {
+        return 0;
+    }
+    let len = end - start;
+    let w = window.min(len);
+    let mut idx = 0usize;
+    let mut p = Patcher::new();
+    let mut pos = start;
+    while pos + 2 <= start + w {
+        let cur = be16(buf, pos).unwrap_or(0);
+        let mut vals: Vec<u16> = INTERESTING16.to_vec();
+        vals.extend(contextual16(cur, len, pos - start));
+        vals.sort_unstable();
+        vals.dedup();
+        for v in vals {
+            if v == cur {
+                continue;
+            }
+            if select(idx) {
+                p.set16(buf, pos, v);
+                f(buf, &format!("u16@{}={:#x}", pos, v));
+                p.undo(buf);
+            }
+            idx += 1;
+        }
+        if (pos - start) % 4 == 0 && pos + 4 <= start + w {
+            let cur32 = be32(buf, pos).unwrap_or(0);
+            for v in INTERESTING32 {
+                if v == cur32 {
+                    continue;
+                }
+                if select(idx) {
+                    p.set32(buf, pos, v);
+                    f(buf, &format!("u32@{}={:#x}", pos, v));
+                    p.undo(buf);
+                }
+                idx += 1;
+            }
+        }
+        pos += 2;
+    }
+    idx
+}
+
+/// Truncation lengths to try for a payload of `len` bytes: every prefix up to
+/// `dense` bytes, then a geometric / boundary sample.
+pub fn truncation_points(len: usize, dense: usize) -> Vec<usize> {
+    let mut v: Vec<usize> = (0..len.min(dense)).collect();
+    let mut x = dense.max(1);
+    while x < len {
+        v.push(x);
+        v.push(x - 1);
+        v.push(x + 1);
+        x = x * 5 / 4 + 1;
+    }
+    for k in 1..=8usize {
+        if len >= k {
+            v.push(len - k);
+        }
+    }
+    v.retain(|&x| x < len);
+    v.sort_unstable();
+    v.dedup();
+    v
+}
+
+/// Copies `data` to a freshly allocated buffer at a chosen misalignment with
+/// different neighbouring bytes; returns (owner, range) so that
+/// `&owner[range]` equals `data` but sits elsewhere in memory.
+pub fn relocate(data: &[u8], misalign: usize, pad_byte: u8) -> (Vec<u8>, std::ops::Range<usize>) {
+    let mut v = vec![pad_byte; data.len() + 64];
+    // make the start address have the requested residue mod 8
+    let base = v.as_ptr() as usize;
+    let want = misalign % 8;
+    let mut off = 16 + (misalign % 16);
+    while (base + off) % 8 != want {
+        off += 1;
+    }
+    v[off..off + data.len()].copy_from_slice(data);
+    (v, off..off + data.len())
+}
